@@ -8,7 +8,7 @@ from vf.spec import AnyT, Ann, Coll, Ctx, F, Lit, MapT, ObjectT, Prim, Program, 
 PROP = "C13"
 SHARDS = {"quick": 8, "thorough": 16}
 TIME_CAP = {"quick": 70, "thorough": 900}
-REQUIRED = ["union_accept", "union_reject", "programs", "coerced_cases", "discriminated_accept", "discriminated_reject_tag", "discriminated_serialize", "tagged_union_cases", "same_json_type_pairs", "unsupported_member_unions", "discriminated_families", "discriminated_dispatch_checks_coerce", "discriminated_dispatch_checks_strict", "discriminated_untagged_checks"]
+REQUIRED = ["union_serialization_history_checks", "union_accept", "union_reject", "programs", "coerced_cases", "discriminated_accept", "discriminated_reject_tag", "discriminated_serialize", "tagged_union_cases", "same_json_type_pairs", "unsupported_member_unions", "discriminated_families", "discriminated_dispatch_checks_coerce", "discriminated_dispatch_checks_strict", "discriminated_untagged_checks"]
 # compiled-tree node classes this workload is expected to reach: reported as coverage gaps when missing, never a verdict
 # (a renamed internal class must not turn into an alarm)
 EXPECTED_NODES = ["node:UnionByTypeMethod", "node:UnionMethod", "node:OptionalMethod"]
@@ -102,6 +102,7 @@ def check_union(env, alts, label, ndata, cons=None, opaque_at=None):
         data = list(atoms) + valid
         for v in valid:
             data += gen_data.mutants(v, rng, atoms, max(2, ndata // 4))
+        accepted_values = []
         for coerce in (False, True):
             harness.reset_all()
             kw = {"coerce": True} if coerce else {}
@@ -147,8 +148,30 @@ def check_union(env, alts, label, ndata, cons=None, opaque_at=None):
                         continue
                     if loose(cu) == loose(cf):
                         env.count("union_accept")
+                        if not coerce and len(accepted_values) < 12:
+                            accepted_values.append(ru.value)
                     else:
                         env.violation({"kind": "not-first-accepting-alternative", "coerce": coerce}, {**wit, "expected_image": repr(cf)[:300], "observed_image": repr(cu)[:300]})
+        # serialization selects "the first alternative whose class matches" per value: the outcome for a value must not depend
+        # on the values the same compiled method has serialized before (one shared method vs a freshly compiled one per value)
+        if accepted_values:
+            from apischema import serialization_method
+            harness.reset_all()
+            osm = harness.call(serialization_method, T)
+            if osm.kind == "ok":
+                shared = [harness.call(osm.value, v) for v in accepted_values]
+                for v, a in zip(accepted_values, shared):
+                    harness.reset_all()
+                    of = harness.call(serialization_method, T)
+                    if of.kind != "ok":
+                        break
+                    b = harness.call(of.value, v)
+                    env.count("union_serialization_history_checks")
+                    if a.brief() != b.brief():
+                        env.violation({"kind": "union-serialization-depends-on-earlier-values"},
+                                      {"program": prog.source, "label": label, "value": harness.safe_repr(v)[:300], "shared_method": a.brief(), "fresh_method": b.brief(),
+                                       "earlier_values": [harness.safe_repr(x)[:120] for x in accepted_values]})
+                        break
         env.count("programs")
     finally:
         prog.unload()
